@@ -18,6 +18,7 @@ import (
 	"syscall"
 	"testing"
 	"time"
+	"unsafe"
 
 	"github.com/opencontainers/go-digest"
 	ocispec "github.com/opencontainers/image-spec/specs-go/v1"
@@ -132,9 +133,23 @@ func materialise(root string, objs []Obj, mtime time.Time) error {
 		if o.T != "sym" {
 			os.Chmod(p, os.FileMode(o.Mode[0]<<6|o.Mode[1]<<3|o.Mode[2]))
 			os.Chtimes(p, mtime, mtime)
+		} else {
+			lutimes(p, mtime) // the link's own time (os.Chtimes would follow it)
 		}
 	}
 	return nil
+}
+
+// lutimes sets the modification time of a symbolic link itself.
+func lutimes(path string, t time.Time) {
+	ts := [2]syscall.Timespec{syscall.NsecToTimespec(t.UnixNano()), syscall.NsecToTimespec(t.UnixNano())}
+	p, err := syscall.BytePtrFromString(path)
+	if err != nil {
+		return
+	}
+	const atFdCwd, atSymlinkNoFollow = -100, 0x100
+	dirfd := atFdCwd
+	syscall.Syscall6(syscall.SYS_UTIMENSAT, uintptr(dirfd), uintptr(unsafe.Pointer(p)), uintptr(unsafe.Pointer(&ts[0])), atSymlinkNoFollow, 0, 0)
 }
 
 func snapshot(root string) []Obj {
@@ -357,8 +372,11 @@ func TestDrive(t *testing.T) {
 		if c.Shape == "file" {
 			// two blobs with the same bytes under different names
 			base := filepath.Join(root, fmt.Sprintf("c%d-d", ci))
-			first, second, derr := dupPipeline(ctx, c, base)
+			first, second, derr := dupPipeline(ctx, c, base, false)
 			emit(map[string]any{"e": "round", "kind": "dup", "case": ci, "c": c, "ok": derr == nil, "msg": errStr(derr), "first": first, "second": second})
+			// the same behind a named layer that is not in the destination (non-distributable)
+			first, second, derr = dupPipeline(ctx, c, base+"-nd", true)
+			emit(map[string]any{"e": "round", "kind": "dup", "case": ci, "c": c, "ok": derr == nil, "msg": errStr(derr), "first": first, "second": second, "absentfirst": true})
 			os.RemoveAll(base)
 		}
 	}
@@ -367,7 +385,7 @@ func TestDrive(t *testing.T) {
 	os.WriteFile(out+"/summary.json", sum, 0o644)
 }
 
-func dupPipeline(ctx context.Context, c Case, base string) (first, second bool, err error) {
+func dupPipeline(ctx context.Context, c Case, base string, absentFirst bool) (first, second bool, err error) {
 	os.MkdirAll(filepath.Join(base, "input"), 0o755)
 	for _, n := range []string{"one.txt", "two.txt"} {
 		os.WriteFile(filepath.Join(base, "input", n), contentOf("small"), 0o644)
@@ -378,6 +396,12 @@ func dupPipeline(ctx context.Context, c Case, base string) (first, second bool, 
 	}
 	defer src.Close()
 	var layers []ocispec.Descriptor
+	if absentFirst {
+		// a named non-distributable layer: Copy never transfers it, so it is legitimately absent from the destination
+		fb := []byte("not distributed")
+		layers = append(layers, ocispec.Descriptor{MediaType: "application/vnd.oci.image.layer.nondistributable.v1.tar", Digest: digest.FromBytes(fb),
+			Size: int64(len(fb)), Annotations: map[string]string{ocispec.AnnotationTitle: "zero.bin"}})
+	}
 	for _, n := range []string{"one.txt", "two.txt"} {
 		d, aerr := src.Add(ctx, n, "", filepath.Join(base, "input", n))
 		if aerr != nil {
